@@ -548,6 +548,100 @@ func ruleTL(c *Ctx) {
 			c.Check(upper, s.Key, pos, "an upper comparison dominates the use", fmt.Sprintf("%s decoded from the input is used as a %s bound with no dominating upper comparison: out-of-range values panic", strings.Join(whyUp, ", "), s.Kind))
 		}
 	}
+	// TL-CUR: the read cursor
+	c.Rule("TL-CUR", "the read cursor only ever moves forward and never past the end of the buffer: every assignment to it is a reset to zero, or an increment by one where it is known to be below the length, or an increment by an amount known to be non-negative and no more than what is left", 3)
+	if rbT := P.NamedType(P.Avro, "ReadBuf"); c.Anchor(rbT != nil, "avro.ReadBuf") {
+		cur := uniqueFieldWhere(rbT, func(t types.Type) bool { return isBasicKind(t, types.Int) })
+		bufF := uniqueFieldWhere(rbT, func(t types.Type) bool {
+			sl, ok := t.Underlying().(*types.Slice)
+			return ok && isBasicKind(sl.Elem(), types.Byte)
+		})
+		if c.Anchor(cur != "" && bufF != "", "ReadBuf's cursor (its int field) and buffer (its []byte field)") {
+			isCurAddr := func(v ssa.Value) bool {
+				fa, ok := v.(*ssa.FieldAddr)
+				return ok && typeKey(fa.X.Type()) == "*avro.ReadBuf" && fieldName(fa.X.Type(), fa.Field) == cur
+			}
+			for _, fn := range P.ModuleFuncs() {
+				n := 0
+				for _, b := range fn.Blocks {
+					for _, in := range b.Instrs {
+						st, ok := in.(*ssa.Store)
+						if !ok || !isCurAddr(st.Addr) {
+							continue
+						}
+						n++
+						key := fmt.Sprintf("%s/cursor-store#%d", fnKey(fn), n)
+						pos := P.pos(st.Pos())
+						if z, isK := constInt(st.Val); isK {
+							c.Check(z == 0, key, pos, "reset to zero", "the cursor is set to a non-zero constant")
+							continue
+						}
+						if _, fresh := st.Addr.(*ssa.FieldAddr).X.(*ssa.Alloc); fresh {
+							c.OKTrivial(key, pos, "initialising a new buffer")
+							continue
+						}
+						bo, isBo := st.Val.(*ssa.BinOp)
+						if !isBo || bo.Op != token.ADD {
+							c.Bad(key, pos, "the cursor is assigned something other than itself plus an amount: it can move backwards or past the end")
+							continue
+						}
+						curPath := accessPath(st.Addr)
+						isCurLoad := func(v ssa.Value) bool {
+							ld, ok := v.(*ssa.UnOp)
+							return ok && ld.Op == token.MUL && accessPath(ld.X) == curPath
+						}
+						var delta ssa.Value
+						switch {
+						case isCurLoad(bo.X):
+							delta = bo.Y
+						case isCurLoad(bo.Y):
+							delta = bo.X
+						default:
+							c.Bad(key, pos, "the cursor is assigned a sum that does not include its own value")
+							continue
+						}
+						if k, isK := constInt(delta); isK {
+							// i += 1 needs i < len(buf)
+							okOne := false
+							for _, cmp := range cmpFactsAt(b) {
+								if cmp.Op == token.LSS && isCurLoad(cmp.X) {
+									if lc, isC := cmp.Y.(*ssa.Call); isC && isBuiltinCall(lc, "len") && strings.HasSuffix(accessPath(lc.Call.Args[0]), "->"+bufF+")") {
+										okOne = true
+									}
+								}
+							}
+							c.Check(k == 1 && okOne, key, pos, "incremented by one where it is known to be below len(buf)", fmt.Sprintf("the cursor is advanced by the constant %d without a dominating test that it stays within the buffer", k))
+							continue
+						}
+						low, bounded := true, true
+						var who []string
+						rs := e.roots(delta)
+						if len(rs) == 0 {
+							rs = []ssa.Value{stripConv(delta)}
+						}
+						for _, r := range rs {
+							g := e.factsAbout(r, b, 0)
+							if !g.Low {
+								low = false
+								who = append(who, rootName(r))
+							}
+							if !g.Bounded {
+								bounded = false
+							}
+						}
+						switch {
+						case !low:
+							c.Bad(key, pos, fmt.Sprintf("the cursor is advanced by %s, which is not known to be non-negative here: a negative length decoded from the input moves the cursor backwards (re-reading or indexing below zero, or looping forever)", strings.Join(who, ", ")))
+						case !bounded:
+							c.Bad(key, pos, "the cursor is advanced by an amount with no dominating bound tied to the bytes left: it can move past the end of the buffer")
+						default:
+							c.OK(key, pos, "advanced by an amount known to be within [0, bytes left]")
+						}
+					}
+				}
+			}
+		}
+	}
 	// TL-OVF: comparisons over a sum/product involving a tainted root that has no upper bound yet
 	c.Rule("TL-OVF", "", 0)
 	for _, fn := range P.ModuleFuncs() {
